@@ -2347,6 +2347,9 @@ class FnTranslator:
                 self.rule('std::vector clear -> size = 0')
                 self.pre.append(('assign', ('field', v, 'size', u64), ('const', u64, 0)))
                 return None
+            if name == 'capacity':
+                self.rule('std::vector capacity() -> model call stdvec_capacity(size): some value not below the size')
+                return ('call', 'stdvec_capacity', [('field', v, 'size', u64)], u64)
             if name == 'reserve':
                 self.rule('std::vector reserve -> no observable effect (capacity is ghost)')
                 self.expr(args[0])
